@@ -15,10 +15,15 @@ ENTRY = ("as_dict", "as_obj")
 FRONT = ("to_jsonb", "to_json", "from_json", "to_msgpck", "from_msgpck", "to_yaml", "from_yaml")
 
 
-def _slot_of(target: ast.AST, slots: set[str]) -> str | None:
-    """Mixin.X / cls.X / self.__class__.X / type(self).X -> X when X is an option slot."""
+def _slot_of(target: ast.AST, slots: set[str], any_receiver: bool = False) -> str | None:
+    """DataClassSerializeMixin.X -> X when X is an option slot.
+
+    Only the mixin class itself is the process-global slot: ``cls.X = ...`` / ``self.X = ...`` inside a method creates
+    a shadow attribute on a subclass / instance and leaves the shared slot untouched (so it is *not* a reset).
+    With ``any_receiver`` every receiver counts (used to find foreign writers)."""
     if isinstance(target, ast.Attribute) and _unmangle(target.attr) in slots:
-        return _unmangle(target.attr)
+        if any_receiver or (isinstance(target.value, ast.Name) and target.value.id == MIXIN):
+            return _unmangle(target.attr)
     return None
 
 
@@ -51,8 +56,9 @@ def find_slots(ck: Checker) -> dict[str, str]:
 class PairSem(Semantics):
     """State = frozenset of dirty slots."""
 
-    def __init__(self, slots: dict[str, str]) -> None:
+    def __init__(self, slots: dict[str, str], any_receiver: bool = False) -> None:
         self.slots = slots
+        self.any = any_receiver
         self.writes: list[tuple[str, str, ast.stmt]] = []
 
     def _effect(self, st: ast.stmt) -> list[tuple[str, bool]]:
@@ -61,7 +67,7 @@ class PairSem(Semantics):
         if isinstance(st, (ast.Assign, ast.AnnAssign, ast.AugAssign)):
             targets = st.targets if isinstance(st, ast.Assign) else [st.target]
             for t in targets:
-                s = _slot_of(t, names)
+                s = _slot_of(t, names, self.any)
                 if s is not None:
                     val = st.value
                     clean = (
@@ -72,14 +78,14 @@ class PairSem(Semantics):
                     eff.append((s, not clean))
         for n in walk_local(st):
             if isinstance(n, ast.Call) and isinstance(n.func, ast.Attribute):
-                s = _slot_of(n.func.value, names)
+                s = _slot_of(n.func.value, names, self.any)
                 if s is not None:
                     if n.func.attr == "clear":
                         eff.append((s, False))
                     elif n.func.attr in ("update", "setdefault", "__setitem__", "pop", "popitem"):
                         eff.append((s, True))
             if isinstance(n, ast.Subscript) and isinstance(n.ctx, (ast.Store, ast.Del)):
-                s = _slot_of(n.value, names)
+                s = _slot_of(n.value, names, self.any)
                 if s is not None:
                     eff.append((s, True))
         return eff
@@ -119,7 +125,7 @@ def r_opt_pair(ck: Checker, slots: dict[str, str]) -> None:
 
 def r_opt_own(ck: Checker, slots: dict[str, str]) -> None:
     """The slots are written only in as_dict/as_obj; the front-ends funnel into those two."""
-    sem = PairSem(slots)
+    sem = PairSem(slots, any_receiver=True)
     n_sites = 0
     for f in ck.repo.functions(list(ck.repo.mods.values())):
         for n in walk_body(f.node.body):
@@ -227,7 +233,7 @@ def r_tag_first(ck: Checker) -> None:
                 t, pol = t.operand, not pol
             k = _opt_flag(t, fn)
             if k is None:
-                raise Unsupported(f"branch condition {norm(test)} is not an option flag", test)
+                continue  # a condition on something else: both of its branches are enumerated as separate paths
             flags[k] = pol
         tag_written = False
         others_written = False
@@ -276,29 +282,37 @@ def r_tag_first(ck: Checker) -> None:
         what = "with key sorting the remaining keys are inserted in sorted key order"
         if srt:
             ok = False
+            dparam = fn.args.args[1].arg if len(fn.args.args) > 1 else "d"
             if isinstance(sorted_fill, ast.For) and isinstance(sorted_fill.iter, ast.Call) and dotted(sorted_fill.iter.func) == "sorted":
                 c = sorted_fill.iter
                 keyf = next((k.value for k in c.keywords if k.arg == "key"), None)
                 rev = next((k.value for k in c.keywords if k.arg == "reverse"), None)
-                key_ok = keyf is None or norm(keyf) in ("itemgetter(0)", "operator.itemgetter(0)") or (
-                    isinstance(keyf, ast.Lambda) and isinstance(keyf.body, ast.Subscript) and is_const(keyf.body.slice, 0))
-                src_ok = len(c.args) == 1 and isinstance(c.args[0], ast.Call) and isinstance(c.args[0].func, ast.Attribute) \
-                    and c.args[0].func.attr == "items"
                 tg = sorted_fill.target
-                body_ok = (
-                    len(sorted_fill.body) == 1 and isinstance(sorted_fill.body[0], ast.Assign)
-                    and isinstance(tg, ast.Tuple) and len(tg.elts) == 2
-                    and isinstance(sorted_fill.body[0].targets[0], ast.Subscript)
-                    and dotted(sorted_fill.body[0].targets[0].value) == outv
-                    and norm(sorted_fill.body[0].targets[0].slice) == norm(tg.elts[0])
-                    and norm(sorted_fill.body[0].value) == norm(tg.elts[1])
-                )
-                ok = key_ok and src_ok and body_ok and (rev is None or is_const(rev, False))
+                body1 = sorted_fill.body[0] if len(sorted_fill.body) == 1 and isinstance(sorted_fill.body[0], ast.Assign) else None
+                rev_ok = rev is None or is_const(rev, False)
+                if len(c.args) == 1 and isinstance(c.args[0], ast.Call) and isinstance(c.args[0].func, ast.Attribute) \
+                        and c.args[0].func.attr == "items" and norm(c.args[0].func.value) == dparam:
+                    key_ok = keyf is None or norm(keyf) in ("itemgetter(0)", "operator.itemgetter(0)") or (
+                        isinstance(keyf, ast.Lambda) and isinstance(keyf.body, ast.Subscript) and is_const(keyf.body.slice, 0))
+                    body_ok = (
+                        body1 is not None and isinstance(tg, ast.Tuple) and len(tg.elts) == 2
+                        and isinstance(body1.targets[0], ast.Subscript) and dotted(body1.targets[0].value) == outv
+                        and norm(body1.targets[0].slice) == norm(tg.elts[0]) and norm(body1.value) == norm(tg.elts[1])
+                    )
+                    ok = key_ok and body_ok and rev_ok
+                elif len(c.args) == 1 and norm(c.args[0]) in (dparam, f"{dparam}.keys()", f"list({dparam})") and keyf is None:
+                    body_ok = (
+                        body1 is not None and isinstance(tg, ast.Name) and isinstance(body1.targets[0], ast.Subscript)
+                        and dotted(body1.targets[0].value) == outv and norm(body1.targets[0].slice) == tg.id
+                        and norm(body1.value) == f"{dparam}[{tg.id}]"
+                    )
+                    ok = body_ok and rev_ok
             if ok:
                 ck.holds("R-SORTED", f, sorted_fill, what)
             else:
                 ck.violation("R-SORTED", f, sorted_fill or fn, what,
-                             construct=f"sorted path fills with {norm(sorted_fill)[:80] if sorted_fill else 'nothing'}")
+                             construct=("sorted path fills with " + (norm(sorted_fill).splitlines()[0][:80] if sorted_fill is not None else "nothing")
+                                        + ": not a sort of the keys of the mapping being serialized"))
         else:
             if sorted_fill is None:
                 ck.violation("R-SORTED", f, fn, "the unsorted path copies all keys", construct="unsorted path copies nothing")
@@ -341,19 +355,53 @@ def r_overrides(ck: Checker) -> None:
                     and st.func.attr in ("update", "setdefault", "__setitem__"):
                 bad = True
                 ck.violation("R-SORTED-OVERRIDE", f, st, what2, construct=f"{f.qualname}: {norm(st)[:60]} after the ordered fill")
-            # nested literal mappings written after the fill must themselves be ordered: tag first, rest sorted
-            if isinstance(st, ast.Assign) and isinstance(st.value, ast.Dict) and st.value.keys and isinstance(st.targets[0], ast.Subscript):
-                keys = st.value.keys
-                ks = [("\0" if (k is not None and (dotted(k) == "TYPE_KEY" or is_const(k, "__type"))) else
-                       (k.value if isinstance(k, ast.Constant) and isinstance(k.value, str) else None)) for k in keys]
-                if None in ks:
-                    raise Unsupported("non-constant key in nested literal mapping", st)
-                if ks != sorted(ks):
-                    bad = True
-                    ck.violation("R-SORTED-OVERRIDE", f, st, "nested literal mapping lists the tag first and the other keys sorted",
-                                 construct=f"{f.qualname}: literal keys {[k if k != chr(0) else 'TYPE_KEY' for k in ks]}")
+        # literal mappings built by the override (nested stubs): tag first, rest sorted, and a tag only when tags are not suppressed
+        parents: dict[int, ast.AST] = {}
+        for p_ in ast.walk(fn):
+            for c_ in ast.iter_child_nodes(p_):
+                parents[id(c_)] = p_
+        local_dicts = {norm(st.targets[0] if isinstance(st, ast.Assign) else st.target): st.value for st in walk_body(fn.body)
+                       if isinstance(st, (ast.Assign, ast.AnnAssign)) and isinstance(st.value, ast.Dict)
+                       and isinstance(st.targets[0] if isinstance(st, ast.Assign) else st.target, ast.Name)}
+        for dct in [n for n in walk_body(fn.body) if isinstance(n, ast.Dict) and n.keys]:
+            ks: list = []
+            for k, v in zip(dct.keys, dct.values):
+                if k is None:
+                    inner = local_dicts.get(norm(v))
+                    if inner is None or inner is dct:
+                        ks.append(None)
+                    else:
+                        ks += [kk.value if isinstance(kk, ast.Constant) and isinstance(kk.value, str) else None for kk in inner.keys]
+                elif dotted(k) == "TYPE_KEY" or is_const(k, "__type"):
+                    ks.append("\0")
+                elif isinstance(k, ast.Constant) and isinstance(k.value, str):
+                    ks.append(k.value)
                 else:
-                    ck.holds("R-SORTED-OVERRIDE", f, st, "nested literal mapping lists the tag first and the other keys sorted")
+                    ks.append(None)
+            if None in ks:
+                raise Unsupported("non-constant key in a literal mapping of a __post_serialize__ override", dct)
+            shown = [k if k != "\0" else "TYPE_KEY" for k in ks]
+            if ks != sorted(ks):
+                bad = True
+                ck.violation("R-SORTED-OVERRIDE", f, dct, "a literal mapping written by the override lists the tag first and the other keys sorted",
+                             construct=f"{f.qualname}: literal keys {shown}")
+            else:
+                ck.holds("R-SORTED-OVERRIDE", f, dct, "a literal mapping written by the override lists the tag first and the other keys sorted", keys=shown)
+            if "\0" in ks:
+                guarded = False
+                cur: ast.AST = dct
+                while id(cur) in parents:
+                    prev, cur = cur, parents[id(cur)]
+                    if isinstance(cur, ast.If) and any(prev is x or any(prev is y for y in ast.walk(x)) for x in cur.body):
+                        t = cur.test
+                        if isinstance(t, ast.UnaryOp) and isinstance(t.op, ast.Not) and _opt_flag(t.operand, fn) == "SKIP_CLASS":
+                            guarded = True
+                what3 = "a literal mapping written by the override carries a type tag only when tags are not suppressed"
+                if guarded:
+                    ck.holds("R-TAG-FIRST", f, dct, what3)
+                else:
+                    bad = True
+                    ck.violation("R-TAG-FIRST", f, dct, what3, construct=f"{f.qualname}: literal mapping with a type tag is not guarded by `not SKIP_CLASS`")
         if not bad:
             ck.holds("R-SORTED-OVERRIDE", f, fn, what2)
     if n < 2:
